@@ -5,7 +5,7 @@
 From Coq Require Import List Arith Bool Sorted.
 Import ListNotations.
 From Verif Require Import BatchRPC.Model BatchRPC.Proofs BatchRPC.Proofs2 BatchRPC.Proofs3 BatchRPC.Proofs4 BatchRPC.Proofs5
-  BatchRPC.System BatchRPC.SysProofs.
+  BatchRPC.System BatchRPC.SysProofs BatchRPC.RunLoop BatchRPC.RunLoopProofs.
 
 (* ids: allocation order is strictly increasing, every id is allocated exactly once (also across stream
    re-creation: no step lowers next_id), every id in the table was allocated to exactly that entry *)
@@ -247,6 +247,38 @@ Proof.
 Qed.
 Print Assumptions C18_unary_exactly_once.
 
+(* util/async.RunLoop, on which every asynchronous completion is scheduled: in every reachable state
+   done ++ running ++ runnable is exactly the list of callbacks ever appended, in append order -- so every callback runs
+   exactly once, callbacks run in FIFO order, nothing appended during a round (also re-entrantly, by a running callback)
+   can overwrite or duplicate a callback of the round, and an idle loop has run everything; the start of a round hands the
+   whole runnable list to the round and leaves an EMPTY runnable list *)
+Theorem C18_runloop_fifo_once :
+  (forall st, rreach st ->
+     r_done st ++ r_running st ++ r_runnable st = r_log st
+     /\ (r_running st = [] -> r_runnable st = [] -> r_done st = r_log st)
+     /\ (NoDup (r_log st) -> NoDup (r_done st ++ r_running st ++ r_runnable st))
+     /\ (exists rest, r_log st = r_done st ++ rest))
+  /\ (forall st st', rstep st RStart = Some st' ->
+        r_running st' = r_runnable st /\ r_runnable st' = [] /\ r_done st' = r_done st).
+Proof. split; [exact runloop_fifo_once | exact runloop_round_start]. Qed.
+Print Assumptions C18_runloop_fifo_once.
+
+(* reqCollapse: the shared flight is owned by no caller.  A caller that has returned got either ITS OWN cancellation /
+   time-out, or the result of the flight it joined -- a flight of its own key, whose response carries that key (own
+   response of the layer below).  A caller's cancellation touches neither the flight nor any other caller, and once
+   the shared request has returned every caller still waiting on it can take the result. *)
+Theorem C18_collapse_follower_result :
+  (forall s c r, creach s -> c_call s c = CRet r ->
+     (r = Err ECtx \/ r = Err ETimeout)
+     \/ exists f, c_joined s c = Some f /\ c_fkey s f = c_key s c /\ c_fres s f = Some r /\ (forall p, r = Resp p -> p = c_key s c))
+  /\ (forall s c e s', cstep s (CAbort c e) = Some s' ->
+        c_fres s' = c_fres s /\ c_cur s' = c_cur s /\ c_nfl s' = c_nfl s /\ c_fkey s' = c_fkey s
+        /\ (forall c', c' <> c -> c_call s' c' = c_call s c') /\ c_call s' c = CRet (Err e) /\ (e = ECtx \/ e = ETimeout))
+  /\ (forall s c f r, c_call s c = CWait f -> c_fres s f = Some r ->
+        exists s', cstep s (CDeliver c) = Some s' /\ c_call s' c = CRet r).
+Proof. split; [exact collapse_follower_result|]. split; [exact collapse_abort_frame | exact collapse_deliver_enabled]. Qed.
+Print Assumptions C18_collapse_follower_result.
+
 (* ---------------------------------------------------------------- non-vacuity *)
 Definition get (o : option state) : state := match o with Some s => s | None => init end.
 
@@ -350,3 +382,15 @@ Example ex_leftover_wake : let x := xget (xrun xinit
   inb x = [3; 2] /\ ready x = false /\ xstep x (XBuildRound (Some 1) [2]) = None
   /\ alloc (core (xget (xrun x [XWake; XBuildRound (Some 1) [2]; XWake; XBuildRound (Some 1) [3]]))) = [(3, 3); (2, 2); (1, 1)].
 Proof. vm_compute. auto. Qed.
+
+(* run loop: callback 0 appends 3 and 4 while it runs, 1 appends 5: everything runs once, in append order *)
+Example ex_runloop : r_done (rl_exec 50 (fun t => match t with 0 => [3; 4] | 1 => [5] | _ => [] end)
+                                    (mkR [0; 1; 2] [] [] [0; 1; 2])) = [0; 1; 2; 3; 4; 5].
+Proof. vm_compute. reflexivity. Qed.
+
+(* collapse: A (caller 1) starts the flight for key 7, B (caller 2) joins it, A is cancelled, the flight returns: B gets the
+   shared response; a caller of key 8 gets its own flight *)
+Example ex_collapse : exists s, crun cinit [CJoin 1 7; CJoin 2 7; CJoin 3 8; CAbort 1 ECtx; CFlightDone 0 (Resp 7); CDeliver 2;
+                                            CFlightDone 1 (Resp 8); CDeliver 3] = Some s
+  /\ c_call s 1 = CRet (Err ECtx) /\ c_call s 2 = CRet (Resp 7) /\ c_call s 3 = CRet (Resp 8) /\ c_nfl s = 2.
+Proof. eexists; split; [vm_compute; reflexivity|]. vm_compute. auto. Qed.
